@@ -176,6 +176,47 @@ ARG_FORMS = [('{l}', True), ('({l})', False), ('(({l}))', False), ('{l} + {zero}
 ARG_STR_FORMS = [('{l}', True), ('({l})', False), ('{l} + ""', False), ('"" + {l}', False), ('(({l}))', False)]
 
 
+# small programs with hand-computed results for corners the generator does not reach
+DIRECTED = [
+    # a constant's value is fixed where it is defined, also when a routine has a constant of its own with a name it uses
+    ("CONST p = 2\nCONST q = p + 1\nPRINT q\nzs\nSUB zs\nCONST p = 10\nPRINT q\nPRINT p\nEND SUB\n", [3, 3, 10]),
+    ("CONST a$ = \"x\"\nCONST b$ = a$ + \"y\"\nPRINT b$\nzs\nSUB zs\nCONST a$ = \"LOCAL\"\nPRINT b$\nPRINT a$\nEND SUB\n", ['xy', 'xy', 'LOCAL']),
+    ("CONST k = 5\nzs\nPRINT k\nSUB zs\nCONST k = 6\nPRINT k\nEND SUB\n", [6, 5]),
+    # a module-level handler works on the module's variables even when the error happened inside a procedure
+    ("ON ERROR GOTO zh\nzcount% = 0\nzs\nPRINT zcount%\nEND\nzh: zcount% = zcount% + 1\nRESUME NEXT\nSUB zs\nzcount% = 50\nx% = 1 \\ zz%\nx% = 2 \\ zz%\nPRINT zcount%\nEND SUB\n",
+     [50, 2]),
+]
+
+
+def run_directed(case):
+    st = {'unit_programs': 0, 'programs': 0, 'runs_compared': 0, 'events_compared': 0, 'typed_print_items': 0,
+          'error_outcomes_compared': 0, 'trap_lines_compared': 0, 'rejected': 0, 'ref_script_exhausted': 0, 'features': ['directed'],
+          'error_kinds': [], 'directed_programs': 0}
+    viol = []
+    shapes = []
+    for i, (text, exp) in enumerate(DIRECTED):
+        for cfg in rt.CONFIGS6:
+            needs_g = 'RESUME' in text
+            if needs_g and not cfg[1]:
+                continue
+            c = rt.compile_src(text, cfg[0], cfg[1])
+            cn = rt.cfg_name(cfg)
+            if c.status != 'ok':
+                viol.append(V(f'C01:valid-program-rejected:{c.status}:{c.sig or c.err_code}', f'{cn} directed program {i}: {c.msg}', text=text))
+                continue
+            r = rt.run_module(rt.load_module(c.modbytes), {}, max_ticks=20000)
+            got = [e[1][0][2] for e in r.history if e[0] == 'print' and e[1]]
+            st['programs'] += 1
+            st['runs_compared'] += 1
+            st['directed_programs'] += 1
+            st['events_compared'] += len(got)
+            st['typed_print_items'] += len(got)
+            shapes.append(f'directed|{i}|{cn}')
+            if got != exp or r.outcome != ['halt']:
+                viol.append(V(f'C01:directed:{i}', f'{cn}: printed {got}, the source says {exp}; run ended {r.outcome}', text=text))
+    return {'viol': viol, 'stats': st, 'shape': shapes, 'nontrivial': True, 'sample': {'source': DIRECTED[0][0], 'expected': DIRECTED[0][1]}}
+
+
 def argform_programs():
     out = []
     tn = {'%': 'a', '&': 'b', '!': 'c', '#': 'd', '$': 'e'}
@@ -239,6 +280,7 @@ def run_argforms(case):
 def gen_cases(tier, seed):
     n = 130 if tier == 'quick' else 2500
     cs = []
+    cs.append({'directed': True, 'seed': seed, 'k': 0})
     na = len(argform_programs())
     for lo in range(0, na, 6):
         cs.append({'argforms': True, 'lo': lo, 'hi': min(na, lo + 6), 'seed': seed, 'k': lo})
@@ -294,6 +336,8 @@ def run_case(case):
     viol = []
     if case.get('argforms'):
         return run_argforms(case)
+    if case.get('directed'):
+        return run_directed(case)
     if case.get('unit'):
         import random as _random
         prog = unit_program(_random.Random(case['seed']), case['k'])
